@@ -330,11 +330,13 @@ func (w *printer) text(t *TextVal) {
 			w.mark(t.ID, "str", idx)
 		}
 	}
+	// the text was written from `format(` / the type prefix to the end of its last piece: the parameters of a
+	// format() call that follow the string are not part of it
+	w.end(t.ID, s)
 	if t.Format != nil {
 		w.toks(t.Format.Params...)
 		w.tok(")")
 	}
-	w.end(t.ID, s)
 }
 
 func (w *printer) cmd(c *Cmd) {
